@@ -24,6 +24,8 @@ func init() {
 			"the correctness of the admissibility tests as values.",
 		Run: runC03,
 		Mutants: []Mutant{
+			{Name: "ipv6-first-pair-refused", File: "internal/ipfamily/ipfamily.go",
+				Old: "\t\tif (ip1.To4() == nil) == (ip2.To4() == nil) {", New: "\t\tif ip1.To4() == nil || ip2.To4() != nil {", Expect: "FAMILY-PAIR"},
 			{Name: "namespace-list-error-ignored", File: "internal/k8s/controllers/pool_controller.go",
 				Old: "\t\tlevel.Error(r.Logger).Log(\"controller\", \"ConfigReconciler\", \"message\", \"failed to get namespaces\", \"error\", err)\n\t\treturn ctrl.Result{}, err\n", New: "\t\tlevel.Error(r.Logger).Log(\"controller\", \"ConfigReconciler\", \"message\", \"failed to get namespaces\", \"error\", err)\n", Expect: "FETCH-CHECKED"},
 			{Name: "service-get-error-tested-on-other-variable", File: "internal/k8s/controllers/service_controller.go",
@@ -105,6 +107,9 @@ func c03Reasons(f *chk.Fn, g *chk.Graph, lbIPs types.Object) []chk.Guard {
 }
 
 func runC03(p *chk.Prog, r *chk.Report) {
+	// a released allocation leaves no tenant behind (SIBLING, shared with C11): a ghost tenant makes the next holder's re-adoption fail
+	c11Sibling(p, r)
+	familyPairRule(p, r)
 	c06ReloadOnly(p, r)
 	fetchCheckedRule(p, r)
 	assignCommitsRule(p, r)
@@ -362,12 +367,35 @@ func c03KeepExisting(p *chk.Prog, r *chk.Report) {
 				return false
 			}
 			n++
-			return f.MatchWith("AL.ips", rs.Results[0], chk.H("AL", ex)) == nil
+			if f.MatchWith("AL.ips", rs.Results[0], chk.H("AL", ex)) != nil {
+				return false
+			}
+			// a result variable shared with the allocating path (`ips = alloc.ips` in this branch, one Assign and one return
+			// below): in the executions that took this branch the only definitions that reach the return are `= AL.ips`
+			if id, isId := ast.Unparen(rs.Results[0]).(*ast.Ident); isId {
+				sites := g.Find(func(m ast.Node) bool { return m == nd })
+				if len(sites) == 1 {
+					notExisting := g.GPat(false, "AL != nil", chk.H("AL", ex))
+					defs, entry := g.ReachingDefsUnder(id, sites[0], func(b *cfgBlock, k int) bool { return g.EdgeImplies(b, k, notExisting) })
+					okDefs := !entry && len(defs) > 0
+					for _, d := range defs {
+						as, isAs := d.(*ast.AssignStmt)
+						if !isAs || len(as.Lhs) != 1 || len(as.Rhs) != 1 || f.MatchWith("AL.ips", as.Rhs[0], chk.H("AL", ex)) == nil {
+							okDefs = false
+						}
+					}
+					if okDefs {
+						return false
+					}
+				}
+			}
+			return true
 		}}).Run()
 		x.Check(name+":existing:returns-held-addresses", posOf(w2, f), !w2.Found && n > 0, "", "the existing-allocation branch does not return alloc.ips")
 		// the branch cannot fall out into the search code
 		w3 := g.BranchAlways(es[0], func(nd ast.Node) bool { _, ok := nd.(*ast.ReturnStmt); return ok })
-		x.Check(name+":existing:always-returns", posOf(w3, f), !w3.Found, "", "the existing-allocation branch can fall through into the allocation search")
+		// (a branch that joins a tail shared with the allocating path is fine as long as no search is reachable from it)
+		x.Check(name+":existing:always-returns", posOf(w3, f), !w3.Found || !w.Found, "", "the existing-allocation branch can fall through into the allocation search")
 	}
 }
 
@@ -545,4 +573,58 @@ func c03Write(p *chk.Prog, r *chk.Report) {
 		return true
 	})
 	x.Check("SetBalancer:toWrite-is-observed-plus-status-annotations", f.Pos(), good, "", "the comparison object is not the observed Service with only Status/Annotations taken from the converged copy")
+}
+
+// familyPairRule (C03, shared with C02): a pair of addresses is dual-stack exactly when the two differ in family,
+// whichever comes first. The status of a Service that gained its IPv4 address after its IPv6 one lists IPv6 first;
+// a classifier that only knows IPv4-first pairs reports a family change for it on every sync, and the Service is
+// cleared and re-allocated although nothing about it changed.
+func familyPairRule(p *chk.Prog, r *chk.Report) {
+	x := r.Rule("FAMILY-PAIR", "B path (truth table)", "ipfamily.ForAddresses and ipfamily.ForAddressesIPs answer DualStack for two addresses only behind `the two differ in family` - (a.To4() == nil) != (b.To4() == nil), a symmetric condition - and ForAddressesIPs either classifies the parsed addresses that way itself or hands the String() of every address to ForAddresses", 2)
+	for _, name := range []string{"ForAddresses", "ForAddressesIPs"} {
+		f := need(x, p, "internal/ipfamily", "", name)
+		if f == nil {
+			continue
+		}
+		g := f.Graph()
+		par := isParamIdx(f, 0)
+		elem := func(i string) func(ast.Expr) bool {
+			return func(e ast.Expr) bool {
+				return f.MatchWith("P["+i+"]", ast.Unparen(f.Resolve(e)), chk.H("P", par)) != nil ||
+					definedBy(g, "net.ParseIP(P["+i+"])", chk.H("P", par))(e) || f.MatchWith("net.ParseIP(P["+i+"])", ast.Unparen(e), chk.H("P", par)) != nil
+			}
+		}
+		a6 := g.GPat(true, "X.To4() == nil", chk.H("X", elem("0")))
+		b6 := g.GPat(true, "X.To4() == nil", chk.H("X", elem("1")))
+		differ := chk.GOr(chk.GAnd(a6, chk.GNot(b6)), chk.GAnd(chk.GNot(a6), b6))
+		nDual, nDelegate, nOther := 0, 0, 0
+		for _, rt := range g.Returns() {
+			rr := retResults(rt)
+			switch {
+			case len(rr) == 2 && isObjNamed(f, "internal/ipfamily.DualStack")(rr[0]):
+				nDual++
+				x.Check(name+":dual-stack-means-the-two-differ", rt.Pos(), g.Dominated(rt, differ), "", "two addresses are classified as dual-stack (or refused) depending on their order, not only on their families: a status that lists the IPv6 address first is taken for a family change and the Service is re-allocated on every sync")
+			case len(rr) == 1 && f.MatchNew("ForAddresses(S)", ast.Unparen(rr[0])) != nil && name == "ForAddressesIPs":
+				nDelegate++
+				// every address reaches the string form handed on
+				b := f.MatchNew("ForAddresses(S)", ast.Unparen(rr[0]))
+				okAll := false
+				for _, rs := range f.RangeLoops(par) {
+					apps := g.Find(func(nd ast.Node) bool {
+						return chk.InBody(rs, nd) && f.IsAssignPat("L", "append(L, IP.String())", chk.H("L", func(e ast.Expr) bool { return f.SameExpr(e, b["S"]) }), chk.H("IP", rangeVal(f, rs)))(nd)
+					})
+					okAll = len(apps) == 1 && !loopCanSkip(g, rs, func(nd ast.Node) bool { return nd == apps[0].Top }) && !loopHasBreak(g, rs) && g.AfterLoop(rt, rs)
+				}
+				x.Check(name+":every-address-handed-on", rt.Pos(), okAll, "", "ForAddressesIPs does not hand every address to ForAddresses")
+			case len(rr) == 2 && isObjNamed(f, "internal/ipfamily.Unknown")(rr[0]) && g.Dominated(rt, g.GPat(true, "len(P) == 2", chk.H("P", par))):
+				// a pair is refused only when an address is invalid or the two are of one family
+				invalid := chk.GOr(g.GPat(true, "X == nil", chk.H("X", elem("0"))), g.GPat(true, "X == nil", chk.H("X", elem("1"))))
+				x.Check(name+":pair-refused-only-for-one-family", rt.Pos(), g.Dominated(rt, chk.GOr(chk.GNot(differ), invalid)), "", "two valid addresses of different families are refused in one of the two orders: a status that lists the IPv6 address first is taken for a family change and the Service is cleared and re-allocated on every sync")
+				nOther++
+			default:
+				nOther++
+			}
+		}
+		x.Check(name+":classifies-pairs", f.Pos(), nDual >= 1 || (nDelegate >= 1 && nOther == 0), "", "no dual-stack answer and no delegation to ForAddresses")
+	}
 }
